@@ -3,7 +3,8 @@ READY = True
 
 SPEC = {
     "targets": ["Properties/C07.vo", "Run/C07.vo"],
-    "theorems": {"Properties.C07": ["C07_disable_exact", "C07_disable_exact_nodup", "C07_problems_exact", "C07_snooze_live_exact", "C07_snooze_expired_noop",
+    "theorems": {"Properties.C07": ["C07_disable_exact", "C07_disable_exact_nodup", "C07_problems_exact", "C07_problems_exact_shift", "C07_problems_exact_snooze_shift", "C07_problems_exact_cfg",
+                                    "C07_untargeted_comment_selection", "C07_problems_untargeted", "C07_problems_nonvacuous", "C07_snooze_live_exact", "C07_snooze_expired_noop",
                                     "C07_locked_ignores_comments", "C07_all_locked_ignore_comments",
                                     "C07_file_disable_all_rules", "C07_file_comment_noop", "C07_nonvacuous",
                                     "C07_grammar_roundtrip", "C07_grammar_keywords", "C07_roundtrip_disable",
@@ -25,7 +26,10 @@ SPEC = {
     ],
     "assumptions": [
         "Match.IsMatch results do not depend on the inserted comment (they are inputs pr_match / cr_match of the model)",
-        "the remaining checks are insensitive to the added comment and equivariant under the one-line shift (opaque; tested by the relational oracle)",
+        "H-insensitive / H-equivariant: the checks that stay selected answer the same on the entry with the extra comment and move their "
+        "problems with the rule (explicit premises of C07_problems_exact_shift/_snooze_shift/_cfg/_untargeted; opaque checks; tested by the "
+        "relational oracle on the binary; known not to hold for promql/series w.r.t. the comments it reads itself: disable/snooze "
+        "promql/series(<selector>), rule/set promql/series ...)",
         "registered name = reporter name of a check (property C08)",
         "attachment model covers mappings without aliases and merge keys (unpackNodes = identity)",
     ],
@@ -42,7 +46,10 @@ MANIFEST = {
     "text": "Theorems (Coq, no axioms, for every clock value and every behaviour of time.Parse): one extra `# pint disable m` (or live snooze) "
             "among a rule's comments changes the set of checks selected for that rule exactly as deleting from the configuration the checks m "
             "targets (registered name, String(), name(+tag)) that are neither locked nor always-enabled - every other check is selected as before, "
-            "including the String()-based de-duplication; an expired snooze changes nothing; locked checks do not read rule comments; a "
+            "including the String()-based de-duplication; lifted to the reported problems with the checks as opaque functions under two named "
+            "hypotheses (insensitivity to the added comment, equivariance under the one-line shift): problems after = shift(filter(not targeted) "
+            "problems before); comments of any other type (rule/set, rule/owner, file/owner) and disable/snooze comments matching no configured check "
+            "(promql/series(<selector>)) never change the selection; an expired snooze changes nothing; locked checks do not read rule comments; a "
             "file/disable or live file/snooze does the same for every rule of the file (locked not protected), an expired file/snooze nothing; "
             "the comment grammar round-trips for all 12 keywords at any offset after '#'-free ASCII text; rule.Comments are exactly rule-type "
             "comments from comment fields of the rule's own yaml subtree (sound, and complete for all fields below the keys/values). Tied to the "
